@@ -293,42 +293,7 @@ def run(rep, tier, seed):
         if not ccl:
             rep.undecided.append("check_decl_constraints: call to check_constraints_list not found")
         else:
-            arg_n = ccl[0]["args"][3] if len(ccl[0]["args"]) > 3 else None
-            arg = synq.expr_skel(arg_n) if arg_n is not None else ""
-            # what flows into the argument: its own expression, or -- when it is a local collection -- its initialiser
-            # and the iterated expressions of the loops that fill it
-            x = arg_n
-            while x is not None and x.get("k") in ("Ref", "Paren", "Group"):
-                x = x["e"]
-            if x is not None and x.get("k") == "Path" and len(x["path"]["segs"]) == 1:
-                var = x["path"]["s"]
-                srcs = []
-                for st in synq.find_all(dc, lambda y: y.get("k") == "Let"):
-                    p_ = st.get("pat") or {}
-                    while p_.get("k") == "PType":
-                        p_ = p_["pat"]
-                    if p_.get("k") == "PIdent" and p_.get("id") == var and st.get("init") is not None:
-                        srcs.append(synq.expr_skel(st["init"]))
-
-                def fills(node, loops):
-                    if isinstance(node, list):
-                        for y in node:
-                            fills(y, loops)
-                        return
-                    if not isinstance(node, dict):
-                        return
-                    if node.get("k") == "For":
-                        fills(node["body"], loops + [synq.expr_skel(node["iter"])])
-                        return
-                    if node.get("k") == "MethodCall" and node["method"] in ("insert", "extend", "push", "entry") and \
-                            node["recv"].get("k") == "Path" and node["recv"]["path"]["s"] == var:
-                        srcs.extend(loops)
-                        srcs.extend(synq.expr_skel(a_) for a_ in node["args"])
-                    for v_ in node.values():
-                        if isinstance(v_, (dict, list)):
-                            fills(v_, loops)
-                fills(dc.get("body"), [])
-                arg = " ; ".join(srcs) or arg
+            arg = synq.sources_of_arg(dc, ccl[0]["args"][3] if len(ccl[0]["args"]) > 3 else None)
             if not re.search(r"iter_parents\(|iter_parents_and_self\(|iter_constraints\(", arg):
                 rep.add("C08|constraints|duplicates-not-checked-against-ancestors",
                         "check_decl_constraints seeds the duplicate check with less than all ancestors' constraints "
